@@ -141,7 +141,14 @@ fn c15_flavour<A: Subject>(run: &Run, backend: Backend, thorough: bool) {
 /// slice lengths and reader bounds in states reached through clear() and through rewinds beyond the ends
 fn c15_states<A: Subject>(run: &Run, backend: Backend, unify: bool) {
   let flav = A::FLAVOUR;
-  for how in ["clear", "clear+alloc", "rewind-beyond-capacity", "rewind-below-data-offset", "fresh", "full"] {
+  let mut hows: Vec<String> = ["clear", "clear+alloc", "rewind-beyond-capacity", "rewind-below-data-offset", "fresh", "full"].iter().map(|s| s.to_string()).collect();
+  // allocation calls that just fit / just do not fit into what is left (padded requests at every residue)
+  for room in 1..=17u32 {
+    for call in ["ab", "t", "b"] {
+      hows.push(format!("room-{}-{}", room, call));
+    }
+  }
+  for how in hows.iter().map(|s| s.as_str()) {
     let p = if backend == Backend::File { Some(fresh_path("c15s")) } else { None };
     let a: A = c15_arena_u::<A>(backend, unify, 100, 0xFF, p.as_ref());
     let case = json!({"engine": "c15", "flavour": flav, "backend": backend, "unify": unify, "state": how});
@@ -157,6 +164,31 @@ fn c15_states<A: Subject>(run: &Run, backend: Backend, unify: bool) {
         "rewind-beyond-capacity" => unsafe { a.rewind(ArenaPosition::Start(256 + 50)) },
         "rewind-below-data-offset" => unsafe { a.rewind(ArenaPosition::Start(0)) },
         "full" => unsafe { a.rewind(ArenaPosition::End(0)) },
+        h if h.starts_with("room-") => {
+          let mut it = h.split('-').skip(1);
+          let room: u32 = it.next().unwrap().parse().unwrap();
+          unsafe { a.rewind(ArenaPosition::End(room)) };
+          // whether the call succeeds or not, the cursor must stay within the capacity
+          match it.next().unwrap() {
+            "ab" => {
+              for extra in [room.saturating_sub(8), room.saturating_sub(9)] {
+                if let Ok(mut b) = a.alloc_aligned_bytes::<u64>(extra) {
+                  unsafe { b.detach() };
+                }
+              }
+            }
+            "t" => {
+              if let Ok(mut b) = unsafe { a.alloc::<u64>() } {
+                unsafe { b.detach() };
+              }
+            }
+            _ => {
+              if let Ok(mut b) = a.alloc_bytes(room) {
+                unsafe { b.detach() };
+              }
+            }
+          }
+        }
         _ => {}
       }
       let (al, cap, dof) = (a.allocated(), a.capacity(), a.data_offset());
@@ -187,11 +219,105 @@ fn c15_states<A: Subject>(run: &Run, backend: Backend, unify: bool) {
       Err(_) => viol(run, "C15", &format!("panic-in-state:{}", how), format!("[{flav} {backend:?} unify={unify}] slices / readers panicked in state '{how}'"), case),
       Ok(bad) => {
         for m in bad {
-          viol(run, "C15", &format!("slice-lengths:{}", how), format!("[{flav} {backend:?} unify={unify} state '{how}'] {m}"), case.clone());
+          let class: String = if how.starts_with("room-") { format!("after-{}", how.rsplit('-').next().unwrap()) } else { how.to_string() };
+          viol(run, "C15", &format!("slice-lengths:{}", class), format!("[{flav} {backend:?} unify={unify} state '{how}'] {m}"), case.clone());
         }
       }
     }
     run.states.insert(hash_of(&(flav, backend, unify, how)));
+    drop(a);
+    if let Some(p) = p {
+      let _ = std::fs::remove_file(p);
+    }
+  }
+  crate::crashguard::clear_case();
+}
+
+/// reference encoder: LEB128, 7 value bits per byte, least significant group first
+fn leb128(mut v: u128) -> Vec<u8> {
+  let mut out = vec![];
+  loop {
+    let b = (v & 0x7f) as u8;
+    v >>= 7;
+    if v == 0 {
+      out.push(b);
+      return out;
+    }
+    out.push(b | 0x80);
+  }
+}
+
+macro_rules! varint_value_cases {
+  ($a:expr, $al:expr, $bad:expr, $evals:expr, $( ($name:ident, $ty:ty, $uty:ty, $signed:expr) ),*) => {
+    $( {
+      let bits = 8 * std::mem::size_of::<$ty>() as u32;
+      // boundary values of every encoded length, in the encoded (zigzag for signed) domain
+      let mut enc: Vec<u128> = vec![0, 1];
+      let mut k = 7;
+      while k < bits {
+        enc.push((1u128 << k) - 1);
+        enc.push(1u128 << k);
+        k += 7;
+      }
+      enc.push(<$uty>::MAX as u128);
+      enc.push((<$uty>::MAX >> 1) as u128);
+      enc.push((<$uty>::MAX as u128) - 1);
+      for e in enc {
+        let bytes = leb128(e);
+        let want: $ty = if $signed { let u = e as $uty; ((u >> 1) as $ty) ^ (((u & 1) as $ty).wrapping_neg()) } else { e as $uty as $ty };
+        // (a) in the middle of the allocated prefix, (b) ending exactly at allocated(), (c) cut by one byte
+        for (place, off) in [("middle", 40usize), ("ending-at-allocated", $al - bytes.len()), ("cut-by-cursor", $al - bytes.len() + 1)] {
+          if place == "cut-by-cursor" && bytes.len() == 1 {
+            continue;
+          }
+          let p = $a.raw_mut_ptr();
+          // only the part below the cursor is written (what lies above keeps the poison pattern)
+          let wl = bytes.len().min($al - off);
+          let saved: Vec<u8> = $a.memory()[off..off + wl].to_vec();
+          unsafe { std::ptr::copy_nonoverlapping(bytes.as_ptr(), p.add(off), wl) };
+          let r = std::panic::catch_unwind(std::panic::AssertUnwindSafe(|| $a.$name(off)));
+          unsafe { std::ptr::copy_nonoverlapping(saved.as_ptr(), p.add(off), wl) };
+          $evals += 1;
+          let cut = place == "cut-by-cursor" && bytes.len() > 1;
+          match r {
+            Err(_) => $bad.push((format!("varint-value:panicked:{}", stringify!($ty)), format!("{}({}) panicked on the {}-byte encoding of {:?} ({})", stringify!($name), off, bytes.len(), want, place))),
+            Ok(Ok((n, v))) => {
+              if cut && place == "cut-by-cursor" {
+                // the bytes below the cursor are a prefix with the continuation bit set on the last one:
+                // nothing complete can be decoded from them
+                $bad.push((format!("varint-value:decoded-across-cursor:{}", stringify!($ty)), format!("{}({}) returned Ok(({}, {:?})) for an encoding that ends above allocated() = {}", stringify!($name), off, n, v, $al)));
+              } else if !cut && (n != bytes.len() || v != want) {
+                $bad.push((format!("varint-value:wrong:{}", stringify!($ty)), format!("{}({}) returned ({}, {:?}) for the {}-byte encoding of {:?} ({})", stringify!($name), off, n, v, bytes.len(), want, place)));
+              }
+            }
+            Ok(Err(e)) => {
+              if !cut {
+                $bad.push((format!("varint-value:refused:{}:{}-bytes", stringify!($ty), bytes.len()), format!("{}({}) failed with {:?} for the {}-byte encoding of {:?} lying entirely below allocated() = {} ({})", stringify!($name), off, e, bytes.len(), want, $al, place)));
+              }
+            }
+          }
+        }
+      }
+    } )*
+  };
+}
+
+/// varint readers against a reference encoder: boundary values of every encoded length of all 8 types
+fn c15_varint_values<A: Subject>(run: &Run, backend: Backend) {
+  let flav = A::FLAVOUR;
+  for (fill, poison) in [(100u32, 0xFFu8), (256, 0x00), (100, 0x00)] {
+    let p = if backend == Backend::File { Some(fresh_path("c15v")) } else { None };
+    let a: A = c15_arena::<A>(backend, fill, poison, p.as_ref());
+    let al = a.allocated();
+    let mut bad: Vec<(String, String)> = vec![];
+    let mut evals = 0u64;
+    let case = json!({"engine": "c15", "flavour": flav, "backend": backend, "allocated": fill, "poison": poison, "part": "varint-values"});
+    crate::crashguard::set_case(crate::crashguard::head_of(&case));
+    varint_value_cases!(a, al, bad, evals, (get_u16_varint, u16, u16, false), (get_u32_varint, u32, u32, false), (get_u64_varint, u64, u64, false), (get_u128_varint, u128, u128, false), (get_i16_varint, i16, u16, true), (get_i32_varint, i32, u32, true), (get_i64_varint, i64, u64, true), (get_i128_varint, i128, u128, true));
+    run.eval(evals);
+    for (sig, msg) in bad {
+      viol(run, "C15", &sig, format!("[{flav} {backend:?} allocated {al}] {msg}"), case.clone());
+    }
     drop(a);
     if let Some(p) = p {
       let _ = std::fs::remove_file(p);
@@ -213,11 +339,15 @@ pub fn check_c15(tier: Tier) -> i32 {
     c15_states::<sync::Arena>(&run, b, u);
     c15_states::<unsync::Arena>(&run, b, u);
   }
+  for b in [Backend::Vec, Backend::File] {
+    c15_varint_values::<sync::Arena>(&run, b);
+    c15_varint_values::<unsync::Arena>(&run, b);
+  }
   crate::crashguard::set_case(crate::crashguard::head_of(&json!({"engine": "c15", "tag": "C15"})));
   let e = run.evaluations.load(std::sync::atomic::Ordering::Relaxed);
   run.trans(e);
   run.sample(|| json!({"arena": "unified Vec arena, capacity 256, data area filled with byte-distinct content, cursor rewound to 47", "calls": "get_u32_le(45) -> OutOfBounds; get_u16_be(45) -> value of bytes 45..47; get_u64_varint(44) with 0xFF vs 0x00 above the cursor -> identical results"}));
-  run.rule("18 fixed-width readers and 8 varint readers x every offset 0..=capacity+16 plus usize extremes x fill states; varint readers are run on two arenas that differ only above allocated(); evaluations = reader calls; states = (flavour, backend, fill) cells");
+  run.rule("18 fixed-width readers and 8 varint readers x every offset 0..=capacity+16 plus usize extremes x fill states; varint readers are run on two arenas that differ only above allocated(), and against a reference LEB128 / zigzag encoder on the boundary values of every encoded length of all 8 types, placed in the middle of the prefix, ending exactly at allocated() and cut by the cursor; evaluations = reader calls; states = (flavour, backend, fill) cells");
   run.set("bounds", json!({"capacity": 256, "offsets": "0..=272, usize::MAX-16..=usize::MAX, 2^32, 2^63 and neighbours", "readers": 26}));
   run.finish()
 }
@@ -415,6 +545,10 @@ fn c16_construct<A: Subject>(run: &Run, reserved: u32, cap: u32, unify: bool, ba
                 if b.data_offset() != want_dof || b.capacity() != cap as usize || b.reserved_bytes() != reserved as usize || !b.unify() || b.read_only() == mode.writable() {
                   viol(run, "C16", &format!("reopen-accessors:{:?}", mode), format!("[{} reserved {} capacity {}] {:?} reopen: data_offset {} capacity {} reserved {} unify {} read_only {}", A::FLAVOUR, reserved, cap, mode, b.data_offset(), b.capacity(), b.reserved_bytes(), b.unify(), b.read_only()), case.clone());
                 }
+                // the remaining accessors report what the file was created with
+                if b.magic_version() != 7 || b.version() != 0 || b.minimum_segment_size() != 13 || b.allocated() != want_dof || b.discarded() != 0 || b.remaining() != cap as usize - want_dof || !b.is_map_file() || !b.is_ondisk() || b.is_inmemory() || b.path().is_none() || b.refs() != 1 {
+                  viol(run, "C16", &format!("reopen-accessors:{:?}", mode), format!("[{} reserved {} capacity {}] {:?} reopen: magic_version {} version {} minimum_segment_size {} allocated {} discarded {} remaining {} is_map_file {} is_ondisk {} is_inmemory {} path {:?} refs {}", A::FLAVOUR, reserved, cap, mode, b.magic_version(), b.version(), b.minimum_segment_size(), b.allocated(), b.discarded(), b.remaining(), b.is_map_file(), b.is_ondisk(), b.is_inmemory(), b.path().is_some(), b.refs()), case.clone());
+                }
               }
             }
             run.eval(1);
@@ -566,6 +700,40 @@ fn positions(allocated: u32, dof: u32, cap: u32) -> Vec<Pos> {
     v.push(Pos::Cur(x));
   }
   v
+}
+
+/// C11: the two flavours answer every rewind position alike (cursor, what the next allocations return)
+pub fn c11_rewind_grid(run: &Run) {
+  let mut cfgs = vec![];
+  for fl in [Fl::Optimistic, Fl::None] {
+    for (b, u, cap, reserved) in [(Backend::Vec, false, 225u32, 0u32), (Backend::Vec, true, 256, 0), (Backend::Vec, false, 265, 40), (Backend::File, true, 296, 40)] {
+      let mut c = Cfg::new(fl, b, u, cap);
+      c.reserved = reserved;
+      cfgs.push(c);
+    }
+  }
+  let spec = Spec { alphabet: vec![], depth: 6, oracles: 0, sync: true, unsync: true, diff: true, diff_prop: "C11" };
+  let st = Start::fresh();
+  par_for_each(&cfgs, |_, cfg| {
+    let mut pair = Pair::new(cfg, &st, &spec);
+    for pre in [vec![], vec![Op::B(Sz::N(1))], vec![Op::B(Sz::N(40)), Op::B(Sz::N(16)), Op::D(0)], vec![Op::B(Sz::R)]] {
+      let probe = pair.run_word(&st, &pre, &spec, 0);
+      let al = probe.obs_sync.last().map(|o| o.allocated).unwrap_or(cfg.data_offset() as u32);
+      for p in positions(al, cfg.data_offset() as u32, cfg.cap) {
+        let mut word = pre.clone();
+        word.extend([Op::Rewind(p), Op::B(Sz::N(1)), Op::T(U64)]);
+        let case = json!({"engine": "hist", "tag": "C11", "cfg": cfg, "start": st, "word": word, "oracles": 0, "sync": true, "unsync": true, "diff": true});
+        crate::crashguard::set_case(crate::crashguard::head_of(&case));
+        let out = pair.run_word(&st, &word, &spec, 0);
+        run.eval(1);
+        run.trans(out.executed as u64);
+        for (k, fl, v) in &out.viol {
+          viol(run, "C11", &format!("{}:rewind-grid", v.class), format!("[{} {:?} history {}] step {}: {}", fl, cfg, word_str(&word), k, v.msg), case.clone());
+        }
+      }
+    }
+    crate::crashguard::clear_case();
+  });
 }
 
 fn c17_rewind_grid<A: Subject>(run: &Run, cfg: &Cfg) {
@@ -967,6 +1135,15 @@ pub fn check_c18(tier: Tier) -> i32 {
     let _ = std::fs::remove_file(&p);
   }
   run.sample(|| json!({"cfg": "unsync Pessimistic file-backed, capacity 224", "start": "full-2eq (free list with two segments, two live detached blocks)", "history": "B(7) D0", "truncate": 300, "follow_up": "alloc_bytes(1), alloc_bytes(remaining), alloc_bytes(remaining+1), alloc_bytes(33) checked against capacity / free-list policy / zero fill / shadow heap"}));
+  {
+    // resizing keeps the base address aligned to the configured maximum alignment (aligned allocations rely on it)
+    let case = json!({"engine": "buf", "tag": "C18", "part": "big-alignment"});
+    let (n, bad) = crate::props_buf::big_alignment_after_truncate();
+    run.eval(n);
+    for m in bad.into_iter().filter(|m| !m.starts_with("as created")) {
+      viol(&run, "C18", "after-truncate:alignment", m, case.clone());
+    }
+  }
   run.rule("truncate(n) for n over the stated grid after every history of the stated depth from 4 start states x 15 configuration cells (3 free-list kinds x Vec/anon plain+unified, file); after each truncate four follow-up allocations under the shadow, policy, zero-fill and error-state oracles; read-only arenas must refuse; evaluations = truncate calls");
   run.set("bounds", json!({"n_values": ns.len(), "n_max": 4 * cap, "history_depth": if thorough { 3 } else { 2 }}));
   run.finish()
